@@ -461,7 +461,11 @@ func (e *env[E, P, D, T]) cell(sz sizeSpec, custom bool) {
 					}
 					nbs := e.nbList(v.full, sz.light, call)
 					call++
-					for _, nb := range nbs {
+					// nbTasks=1 first: the library then runs on the calling goroutine and a panic is attributable
+					for i, nb := range append([]nbOpt{{1, true}}, nbs...) {
+						if i > 0 && nb.set && nb.nb == 1 {
+							continue
+						}
 						e.one("FFT", e.in.FFT, dm.d, dm.pre, in, wantF, dit, coset, nb, lg, v, shiftKind, buf)
 						e.one("FFTInverse", e.in.FFTInverse, dm.d, dm.pre, in, wantI, dit, coset, nb, lg, v, shiftKind, buf)
 					}
@@ -533,8 +537,13 @@ func (e *env[E, P, D, T]) one(op string, f fftFn[E, D], d *D, pre bool, in, want
 	desc := func() string {
 		return fmt.Sprintf("%s n=2^%d %s nbTasks=%s GOMAXPROCS=%d vector=%s", cfg, lg, shiftKind, nb, gomaxprocs, v.name)
 	}
+	if _, isDead := e.dead.Load(op + "/" + cfg); isDead {
+		return
+	}
 	c.Current(N + " " + op + " " + desc())
 	if c.Guard(N+"/"+op+"/panic/"+cfg, desc, func() { f(d, buf, dit, coset, nb.nb, nb.set) }) {
+		e.dead.Store(op+"/"+cfg, true)
+		e.deadLg.Store(lg, true)
 		return
 	}
 	c.Eval(op, 1)
@@ -574,6 +583,9 @@ func (e *env[E, P, D, T]) reportDiff(prefix, cfg, desc string, got, want []E) {
 // with different task counts on each side; DIF->DIT and DIT->DIF need no explicit bit reversal.
 func (e *env[E, P, D, T]) roundTrips(dP, dN *D, lg int, rng *gen.Rng, shiftKind string) {
 	c, N := e.c, e.N
+	if _, isDead := e.deadLg.Load(lg); isDead {
+		return
+	}
 	n := 1 << lg
 	x := make([]T, n)
 	for i := range x {
